@@ -4,6 +4,7 @@ Helper lemmas for C03 at the frame level: the only `Fault` the frame-level model
 from `do_offset_history` with offset value 0 (plus the two `panic!("Bug in library")` arms of
 `decode_from_to`); none of them is reachable.
 -/
+set_option linter.unusedSectionVars false
 namespace Zstd.Model
 open Zstd
 
@@ -99,202 +100,353 @@ theorem decompressBlock_noFault (content : List Nat) (e : Spec.Entropy) (b : DBu
               exact decodeSequences_ov _ _ _ _ hr
           exact executeSequences_noFault seqs hov lits _ 0 b f
 
-theorem blockBody_noFault (st : FState) (bh : BHeader) (body : List Nat) (f : Fault) :
-    (blockBody st bh body).2 ≠ .fault f := by
+
+/-! ### the frame level, for every block decoder with a `NoFaultContract` -/
+
+section generic
+variable {σ : Type} [BlockDec σ] [BlockContract σ] [NoFaultContract σ]
+
+/-- the frame state's entropy part is well formed -/
+def FState.entWF (st : FState σ) : Prop := NoFaultContract.wf st.entropy
+
+/-- every registered dictionary carries a well-formed entropy state (no operation changes them) -/
+def Decoder.dictsWF (d : Decoder σ) : Prop := ∀ dict ∈ d.dicts, NoFaultContract.wf dict.entropy
+
+/-- decoder invariant for C03: the current frame state and every registered dictionary carry a
+well-formed entropy state.  Established by `new` / a successful `reset`, kept by every operation
+that does not end in `err literals` / `err sequences` (`Out.clean`); `dictsWF` — which is all
+`reset` needs — is kept by everything. -/
+def Decoder.entWF (d : Decoder σ) : Prop :=
+  (∀ st, d.state = some st → st.entWF) ∧ d.dictsWF
+
+theorem Decoder.entWF.setState {d : Decoder σ} (h : d.dictsWF) (st : FState σ) (hst : st.entWF) :
+    ({ d with state := some st } : Decoder σ).entWF :=
+  ⟨fun st' h' => by simp only [Option.some.injEq] at h'; rw [← h']; exact hst, h⟩
+
+theorem Out.clean_mapOk {α β : Type} (f : α → β) (o : Out α) (h : (o.mapOk f).clean) : o.clean := by
+  cases o with
+  | ok a => exact Out.clean_ok a
+  | err e => exact Out.clean_cast h
+  | fault f => exact ⟨by simp, by simp⟩
+
+theorem blockBody_noFault (st : FState σ) (bh : BHeader) (body : List Nat) (hw : st.entWF)
+    (hi : NoFaultContract.inp σ body) :
+    ((blockBody st bh body).2.clean → (blockBody st bh body).1.entWF) ∧ ∀ f, (blockBody st bh body).2 ≠ .fault f := by
   simp only [blockBody]
   split
-  · simp
+  · exact ⟨fun _ => hw, fun f => by simp⟩
   · split
-    · simp
-    · split
-      · simp
-      · simp
-      · rename_i heq
-        have := decompressBlock_noFault body st.entropy st.buf
-        rw [heq] at this
-        exact absurd rfl (this _)
+    · exact ⟨fun _ => hw, fun f => by simp⟩
+    · have h1 := NoFaultContract.wf_run body st.entropy st.buf hw hi
+      have h2 := fun f => NoFaultContract.noFault body st.entropy st.buf f hw hi
+      split <;> rename_i heq <;> rw [heq] at h1 h2
+      · exact ⟨fun _ => h1 (Out.clean_ok ()), fun f => by simp⟩
+      · exact ⟨fun hc => h1 hc, fun f => by simp⟩
+      · exact absurd rfl (h2 _)
 
-theorem decodeOneBlock_noFault (st : FState) (s : Src) (f : Fault) : (decodeOneBlock st s).2 ≠ .fault f := by
+theorem decodeOneBlock_noFault (st : FState σ) (s : Src) (hw : st.entWF) (hi : NoFaultContract.inp σ s) :
+    ((decodeOneBlock st s).2.clean → (decodeOneBlock st s).1.entWF) ∧ ∀ f, (decodeOneBlock st s).2 ≠ .fault f := by
   rw [decodeOneBlock_eq]
   split
-  · simp
+  · exact ⟨fun _ => hw, fun f => by simp⟩
   · split
-    · simp
+    · exact ⟨fun _ => hw, fun f => by simp⟩
     · split
-      · simp
-      · simp only
-        have := blockBody_noFault st ‹BHeader› ((s.drop 3).take (‹BHeader›).contentSize)
-        cases hb : (blockBody st ‹BHeader› ((s.drop 3).take (‹BHeader›).contentSize)).2 with
+      · exact ⟨fun _ => hw, fun f => by simp⟩
+      · rename_i bh _ _
+        have := blockBody_noFault st bh ((s.drop 3).take bh.contentSize) hw
+          (NoFaultContract.inp_take _ _ (NoFaultContract.inp_drop _ _ hi))
+        refine ⟨fun hc => this.1 (Out.clean_mapOk _ _ hc), fun f => ?_⟩
+        cases hb : (blockBody st bh ((s.drop 3).take bh.contentSize)).2 with
         | ok u => simp [Out.mapOk]
         | err e => simp [Out.mapOk]
-        | fault f' => exact absurd hb (this f')
+        | fault f' => exact absurd hb (this.2 f')
 
-theorem decodeBlocksLoop_noFault (strat : Strategy) (a c fuel : Nat) (st : FState) (s : Src) (f : Fault) :
-    (decodeBlocksLoop strat a c fuel st s).2 ≠ .fault f := by
+theorem decodeBlocksLoop_noFault (strat : Strategy) (a c fuel : Nat) (st : FState σ) (s : Src)
+    (hw : st.entWF) (hi : NoFaultContract.inp σ s) :
+    ((decodeBlocksLoop strat a c fuel st s).2.clean → (decodeBlocksLoop strat a c fuel st s).1.entWF) ∧
+    ∀ f, (decodeBlocksLoop strat a c fuel st s).2 ≠ .fault f := by
   induction fuel generalizing st s with
-  | zero => simp [decodeBlocksLoop]
+  | zero => exact ⟨fun _ => hw, fun f => by simp [decodeBlocksLoop]⟩
   | succ fuel ih =>
     rw [decodeBlocksLoop_succ]
+    have hb := decodeOneBlock_noFault st s hw hi
     split
-    · simp
-    · rename_i heq
-      have := decodeOneBlock_noFault st s
-      rw [heq] at this
-      exact absurd rfl (this _)
-    · split
+    · rename_i heq; rw [heq] at hb; exact ⟨fun hc => hb.1 (Out.clean_cast hc), fun f => by simp⟩
+    · rename_i heq; rw [heq] at hb; exact absurd rfl (hb.2 _)
+    · rename_i st1 bh s1 heq
+      rw [heq] at hb
+      have hs1 := (decodeOneBlock_ok _ _ _ _ _ heq).2.1
+      have hw1 : st1.entWF := hb.1 (Out.clean_ok _)
+      split
       · split
-        · split <;> simp
-        · simp
+        · split
+          · exact ⟨fun _ => hw1, fun f => by simp⟩
+          · exact ⟨fun _ => hw1, fun f => by simp⟩
+        · exact ⟨fun _ => hw1, fun f => by simp⟩
       · split
-        · simp
-        · exact ih _ _
+        · exact ⟨fun _ => hw1, fun f => by simp⟩
+        · exact ih _ _ hw1 (by rw [hs1]; exact NoFaultContract.inp_drop _ _ hi)
 
-theorem Decoder.decodeBlocks_noFault (d : Decoder) (s : Src) (strat : Strategy) (f : Fault) :
-    (d.decodeBlocks s strat).2 ≠ .fault f := by
+theorem Decoder.decodeBlocks_dicts (d : Decoder σ) (s : Src) (strat : Strategy) :
+    (d.decodeBlocks s strat).1.dicts = d.dicts := by
   cases hst : d.state with
-  | none => simp [Decoder.decodeBlocks, hst]
-  | some st =>
-    rw [Decoder.decodeBlocks_some d st s strat hst]
-    have := decodeBlocksLoop_noFault strat st.buf.content.size st.blockCounter (s.length + 1) st s
-    cases ho : (decodeBlocksLoop strat st.buf.content.size st.blockCounter (s.length + 1) st s).2 with
-    | ok r => simp
-    | err e => simp
-    | fault f' => exact absurd ho (this f')
+  | none => simp only [Decoder.decodeBlocks, hst]
+  | some st => rw [Decoder.decodeBlocks_some d st s strat hst]
 
-theorem decodeFromToLoop_noFault (fuel : Nat) (st : FState) (s : Src) (f : Fault) :
-    (decodeFromToLoop fuel st s).2 ≠ .fault f := by
+theorem Decoder.decodeBlocks_noFault (d : Decoder σ) (s : Src) (strat : Strategy) (hw : d.entWF)
+    (hi : NoFaultContract.inp σ s) :
+    ((d.decodeBlocks s strat).2.clean → (d.decodeBlocks s strat).1.entWF) ∧ (d.decodeBlocks s strat).1.dictsWF ∧
+    (∀ f, (d.decodeBlocks s strat).2 ≠ .fault f) ∧
+    (∀ s' fin, (d.decodeBlocks s strat).2 = .ok (s', fin) → NoFaultContract.inp σ s') := by
+  cases hst : d.state with
+  | none =>
+    simp only [Decoder.decodeBlocks, hst]
+    exact ⟨fun _ => hw, hw.2, fun f => by simp, fun s' fin h => by cases h⟩
+  | some st =>
+    have hl := decodeBlocksLoop_noFault strat st.buf.content.size st.blockCounter (s.length + 1) st s (hw.1 st hst) hi
+    refine ⟨?_, ?_, ?_, ?_⟩
+    · rw [Decoder.decodeBlocks_some d st s strat hst]
+      intro hc
+      refine Decoder.entWF.setState hw.2 _ (hl.1 ?_)
+      cases ho : (decodeBlocksLoop strat st.buf.content.size st.blockCounter (s.length + 1) st s).2 with
+      | ok r => exact Out.clean_ok _
+      | err e => rw [ho] at hc; exact Out.clean_cast hc
+      | fault f' => exact absurd ho (hl.2 f')
+    · rw [Decoder.decodeBlocks_some d st s strat hst]; exact hw.2
+    · rw [Decoder.decodeBlocks_some d st s strat hst]
+      intro f
+      cases ho : (decodeBlocksLoop strat st.buf.content.size st.blockCounter (s.length + 1) st s).2 with
+      | ok r => simp
+      | err e => simp
+      | fault f' => exact absurd ho (hl.2 f')
+    · intro s' fin h
+      cases hd : d.decodeBlocks s strat with
+      | mk d' o =>
+        rw [hd] at h
+        simp only at h
+        subst h
+        obtain ⟨-, n, -, hn, -⟩ := Decoder.decodeBlocks_ok_consumes d d' s s' strat fin hd
+        rw [hn]; exact NoFaultContract.inp_drop _ _ hi
+
+theorem applyDrain_entWF (d : Decoder σ) (op : DrainOp) (hw : d.entWF) : (applyDrain d op).1.entWF := by
+  rcases applyDrain_take d op with ⟨hn, he⟩ | ⟨st, k, hs, hk, he⟩
+  · rw [he]; exact hw
+  · rw [he]; exact Decoder.entWF.setState hw.2 _ (hw.1 st hs)
+
+theorem applyDrain_dictsWF (d : Decoder σ) (op : DrainOp) (hw : d.dictsWF) : (applyDrain d op).1.dictsWF := by
+  rcases applyDrain_take d op with ⟨hn, he⟩ | ⟨st, k, hs, hk, he⟩
+  · rw [he]; exact hw
+  · rw [he]; exact hw
+
+theorem Decoder.read_entWF (d : Decoder σ) (n : Nat) (hw : d.entWF) : (d.read n).1.entWF :=
+  applyDrain_entWF d (.read n) hw
+
+theorem Decoder.read_dictsWF (d : Decoder σ) (n : Nat) (hw : d.dictsWF) : (d.read n).1.dictsWF :=
+  applyDrain_dictsWF d (.read n) hw
+
+theorem resetCore_entWF (dicts : List (Dict σ)) (mw : Nat) (s : Src) (st : FState σ) (o : Out Src)
+    (hd : ∀ dict ∈ dicts, NoFaultContract.wf dict.entropy) (h : resetCore dicts mw s = .replace st o) : st.entWF := by
+  simp only [resetCore] at h
+  split at h
+  · cases h
+  · split at h
+    · cases h
+    · split at h
+      · cases h
+      · simp only [applyDictChoice, freshState, FState.withDict] at h
+        split at h
+        · cases h; exact NoFaultContract.wf_fresh
+        · split at h
+          · cases h; exact NoFaultContract.wf_fresh
+          · rename_i dict hf
+            cases h
+            exact hd dict (List.mem_of_find?_eq_some hf)
+
+/-- `reset` needs well-formed dictionaries only — the state it starts from may be the debris of a
+failed frame — and never faults; when it returns `Ok` (more generally: whenever it replaces the
+frame state) the decoder satisfies the full invariant again -/
+theorem Decoder.reset_noFault (d : Decoder σ) (s : Src) (hd : d.dictsWF) :
+    (d.reset s).1.dictsWF ∧ (∀ f, (d.reset s).2 ≠ .fault f) ∧
+    (d.entWF → (d.reset s).1.entWF) ∧ (∀ rest, (d.reset s).2 = .ok rest → (d.reset s).1.entWF) := by
+  rcases Decoder.reset_cases d s with ⟨e, he⟩ | ⟨st, o, he, hr⟩
+  · rw [he]; exact ⟨hd, fun f => by simp, fun h => h, fun rest h => by cases h⟩
+  · rw [he]
+    have := Decoder.entWF.setState hd _ (resetCore_entWF _ _ _ _ _ hd hr)
+    exact ⟨hd, (resetCore_replace _ _ _ _ _ hr).2.2.2.2.2.2.2.2.2, fun _ => this, fun _ _ => this⟩
+
+theorem decodeFromToLoop_noFault (fuel : Nat) (st : FState σ) (s : Src) (hw : st.entWF) (hi : NoFaultContract.inp σ s) :
+    ((decodeFromToLoop fuel st s).2.clean → (decodeFromToLoop fuel st s).1.entWF) ∧
+    ∀ f, (decodeFromToLoop fuel st s).2 ≠ .fault f := by
   induction fuel generalizing st s with
-  | zero => simp [decodeFromToLoop]
+  | zero => exact ⟨fun _ => hw, fun f => by simp [decodeFromToLoop]⟩
   | succ fuel ih =>
     rw [decodeFromToLoop_succ]
     split
-    · simp
+    · exact ⟨fun _ => hw, fun f => by simp⟩
     · split
-      · simp
+      · exact ⟨fun _ => hw, fun f => by simp⟩
       · split
-        · simp
-        · split
-          · simp
-          · rename_i heq
-            have := decodeOneBlock_noFault st s
-            rw [heq] at this
-            exact absurd rfl (this _)
-          · split
-            · split <;> simp
-            · exact ih _ _
+        · exact ⟨fun _ => hw, fun f => by simp⟩
+        · have hb := decodeOneBlock_noFault st s hw hi
+          split
+          · rename_i heq; rw [heq] at hb; exact ⟨fun hc => hb.1 (Out.clean_cast hc), fun f => by simp⟩
+          · rename_i heq; rw [heq] at hb; exact absurd rfl (hb.2 _)
+          · rename_i st1 bh' s1 heq
+            rw [heq] at hb
+            have hs1 := (decodeOneBlock_ok _ _ _ _ _ heq).2.1
+            have hw1 : st1.entWF := hb.1 (Out.clean_ok _)
+            split
+            · split
+              · exact ⟨fun _ => hw1, fun f => by simp⟩
+              · exact ⟨fun _ => hw1, fun f => by simp⟩
+            · exact ih _ _ hw1 (by rw [hs1]; exact NoFaultContract.inp_drop _ _ hi)
 
-theorem fromToCore_noFault (d1 : Decoder) (st : FState) (s1 : Src) (startRead n : Nat) (f : Fault) :
-    (fromToCore d1 st s1 startRead n).2 ≠ .fault f := by
+theorem fromToCore_noFault (d1 : Decoder σ) (st : FState σ) (s1 : Src) (startRead n : Nat)
+    (hw : d1.entWF) (hst : st.entWF) (hi : NoFaultContract.inp σ s1) :
+    ((fromToCore d1 st s1 startRead n).2.clean → (fromToCore d1 st s1 startRead n).1.entWF) ∧
+    (fromToCore d1 st s1 startRead n).1.dictsWF ∧ ∀ f, (fromToCore d1 st s1 startRead n).2 ≠ .fault f := by
   simp only [fromToCore]
   split
-  · split <;> simp
   · split
-    · simp
-    · simp
-    · rename_i heq
-      have := decodeFromToLoop_noFault (s1.length + 1) st s1
-      rw [heq] at this
-      exact absurd rfl (this _)
+    · exact ⟨fun _ => Decoder.entWF.setState hw.2 _ hst, hw.2, fun f => by simp⟩
+    · exact ⟨fun _ => hw, hw.2, fun f => by simp⟩
+  · have hl := decodeFromToLoop_noFault (s1.length + 1) st s1 hst hi
+    split
+    · rename_i heq; rw [heq] at hl
+      have h1 := Decoder.entWF.setState (d := d1) hw.2 _ (hl.1 (Out.clean_ok _))
+      exact ⟨fun _ => Decoder.read_entWF _ n h1, (Decoder.read_entWF _ n h1).2, fun f => by simp⟩
+    · rename_i heq; rw [heq] at hl
+      exact ⟨fun hc => Decoder.entWF.setState hw.2 _ (hl.1 (Out.clean_cast hc)), hw.2, fun f => by simp⟩
+    · rename_i heq; rw [heq] at hl; exact absurd rfl (hl.2 _)
 
 /-- `decode_from_to` never panics: neither through a block nor through its two `panic!("Bug in
 library")` arms (the state is always `Some` where they are tested) -/
-theorem Decoder.decodeFromTo_noFault (d : Decoder) (s : Src) (n : Nat) (f : Fault) :
-    (d.decodeFromTo s n).2 ≠ .fault f := by
+theorem Decoder.decodeFromTo_noFault (d : Decoder σ) (s : Src) (n : Nat) (hw : d.entWF) (hi : NoFaultContract.inp σ s) :
+    ((d.decodeFromTo s n).2.clean → (d.decodeFromTo s n).1.entWF) ∧ (d.decodeFromTo s n).1.dictsWF ∧
+    ∀ f, (d.decodeFromTo s n).2 ≠ .fault f := by
   cases hst : d.state with
   | some st =>
     rw [Decoder.decodeFromTo_some d st s n hst]
     split
-    · simp
-    · exact fromToCore_noFault _ _ _ _ _ _
+    · exact ⟨fun _ => Decoder.read_entWF d n hw, (Decoder.read_entWF d n hw).2, fun f => by simp⟩
+    · exact fromToCore_noFault _ _ _ _ _ hw (hw.1 st hst) hi
   | none =>
     rw [Decoder.decodeFromTo_none d s n hst]
     cases hr : resetCore d.dicts d.maxWindow s with
-    | keep e => simp
+    | keep e => exact ⟨fun _ => hw, hw.2, fun f => by simp⟩
     | replace st o =>
-      have := (resetCore_replace _ _ _ _ _ hr).2.2.2.2.2.2.2.2.2
+      have hrc := resetCore_replace _ _ _ _ _ hr
+      have hstw := resetCore_entWF _ _ _ _ _ hw.2 hr
       cases o with
-      | err e => simp
-      | fault f' => exact absurd rfl (this f')
-      | ok s1 => exact fromToCore_noFault _ _ _ _ _ _
+      | err e => exact ⟨fun _ => Decoder.entWF.setState hw.2 _ hstw, hw.2, fun f => by simp⟩
+      | fault f' => exact absurd rfl (hrc.2.2.2.2.2.2.2.2.2 f')
+      | ok s1 =>
+        have := hrc.2.2.2.2.2.2.2.2.1 s1 rfl
+        exact fromToCore_noFault _ _ _ _ _ (Decoder.entWF.setState hw.2 _ hstw) hstw (by rw [this]; exact NoFaultContract.inp_drop _ _ hi)
 
-theorem Decoder.reset_noFault (d : Decoder) (s : Src) (f : Fault) : (d.reset s).2 ≠ .fault f := by
-  rcases Decoder.reset_cases d s with ⟨e, he⟩ | ⟨st, o, he, hr⟩
-  · rw [he]; simp
-  · rw [he]; exact (resetCore_replace _ _ _ _ _ hr).2.2.2.2.2.2.2.2.2 f
-
-theorem streamingFill_noFault (fuel : Nat) (d : Decoder) (s : Src) (n : Nat) (f : Fault) :
-    (streamingFill fuel d s n).2 ≠ .fault f := by
+theorem streamingFill_noFault (fuel : Nat) (d : Decoder σ) (s : Src) (n : Nat) (hw : d.entWF) (hi : NoFaultContract.inp σ s) :
+    ((streamingFill fuel d s n).2.clean → (streamingFill fuel d s n).1.entWF) ∧ (streamingFill fuel d s n).1.dictsWF ∧
+    ∀ f, (streamingFill fuel d s n).2 ≠ .fault f := by
   induction fuel generalizing d s with
-  | zero => simp [streamingFill]
+  | zero => exact ⟨fun _ => hw, hw.2, fun f => by simp [streamingFill]⟩
   | succ fuel ih =>
     rw [streamingFill]
     split
-    · split
-      · simp
-      · rename_i heq
-        have := Decoder.decodeBlocks_noFault d s (.uptoBytes (n - d.canCollect))
-        rw [heq] at this
-        exact absurd rfl (this _)
-      · exact ih _ _
-    · simp
+    · have hb := Decoder.decodeBlocks_noFault d s (.uptoBytes (n - d.canCollect)) hw hi
+      split
+      · rename_i heq; rw [heq] at hb; exact ⟨fun hc => hb.1 (Out.clean_cast hc), hb.2.1, fun f => by simp⟩
+      · rename_i heq; rw [heq] at hb; exact absurd rfl (hb.2.2.1 _)
+      · rename_i d1 s1 fin heq
+        rw [heq] at hb
+        exact ih _ _ (hb.1 (Out.clean_ok _)) (hb.2.2.2 s1 fin rfl)
+    · exact ⟨fun _ => hw, hw.2, fun f => by simp⟩
 
-theorem streamingRead_noFault (d : Decoder) (s : Src) (n : Nat) (f : Fault) :
-    (streamingRead d s n).2 ≠ .fault f := by
+theorem streamingRead_noFault (d : Decoder σ) (s : Src) (n : Nat) (hw : d.entWF) (hi : NoFaultContract.inp σ s) :
+    ((streamingRead d s n).2.clean → (streamingRead d s n).1.entWF) ∧ (streamingRead d s n).1.dictsWF ∧
+    ∀ f, (streamingRead d s n).2 ≠ .fault f := by
   simp only [streamingRead]
   split
-  · simp
-  · split
-    · simp
-    · rename_i heq
-      have := streamingFill_noFault (s.length + 2) d s n
-      rw [heq] at this
-      exact absurd rfl (this _)
-    · simp
+  · exact ⟨fun _ => hw, hw.2, fun f => by simp⟩
+  · have hl := streamingFill_noFault (s.length + 2) d s n hw hi
+    split
+    · rename_i heq; rw [heq] at hl; exact ⟨fun hc => hl.1 (Out.clean_cast hc), hl.2.1, fun f => by simp⟩
+    · rename_i heq; rw [heq] at hl; exact absurd rfl (hl.2.2 _)
+    · rename_i heq; rw [heq] at hl
+      have h1 := Decoder.read_entWF _ n (hl.1 (Out.clean_ok _))
+      exact ⟨fun _ => h1, h1.2, fun f => by simp⟩
 
-theorem decodeAllFrame_noFault (fuel : Nat) (d : Decoder) (s : Src) (room : Nat) (out : Array Nat) (f : Fault) :
-    (decodeAllFrame fuel d s room out).2 ≠ .fault f := by
+theorem decodeAllFrame_noFault (fuel : Nat) (d : Decoder σ) (s : Src) (room : Nat) (out : Array Nat)
+    (hw : d.entWF) (hi : NoFaultContract.inp σ s) :
+    ((decodeAllFrame fuel d s room out).2.clean → (decodeAllFrame fuel d s room out).1.entWF) ∧
+    (decodeAllFrame fuel d s room out).1.dictsWF ∧
+    (∀ f, (decodeAllFrame fuel d s room out).2 ≠ .fault f) ∧
+    (∀ s' r' o', (decodeAllFrame fuel d s room out).2 = .ok (s', r', o') → NoFaultContract.inp σ s') := by
   induction fuel generalizing d s room out with
-  | zero => simp [decodeAllFrame]
+  | zero => exact ⟨fun _ => hw, hw.2, fun f => by simp [decodeAllFrame], fun s' r' o' h => by
+      simp only [decodeAllFrame, Out.ok.injEq, Prod.mk.injEq] at h; rw [← h.1]; exact hi⟩
   | succ fuel ih =>
     rw [decodeAllFrame]
+    have hb := Decoder.decodeBlocks_noFault d s (.uptoBytes (1024 * 1024)) hw hi
     split
-    · simp
-    · rename_i heq
-      have := Decoder.decodeBlocks_noFault d s (.uptoBytes (1024 * 1024))
-      rw [heq] at this
-      exact absurd rfl (this _)
-    · simp only
+    · rename_i heq; rw [heq] at hb
+      exact ⟨fun hc => hb.1 (Out.clean_cast hc), hb.2.1, fun f => by simp, fun s' r' o' h => by cases h⟩
+    · rename_i heq; rw [heq] at hb; exact absurd rfl (hb.2.2.1 _)
+    · rename_i d1 s1 fin heq
+      rw [heq] at hb
+      have hr := Decoder.read_entWF d1 room (hb.1 (Out.clean_ok _))
+      have hi1 := hb.2.2.2 s1 fin rfl
+      simp only
       split
-      · simp
+      · exact ⟨fun _ => hr, hr.2, fun f => by simp, fun s' r' o' h => by cases h⟩
       · split
-        · simp
-        · exact ih _ _ _ _
+        · exact ⟨fun _ => hr, hr.2, fun f => by simp, fun s' r' o' h => by
+            simp only [Out.ok.injEq, Prod.mk.injEq] at h; rw [← h.1]; exact hi1⟩
+        · exact ih _ _ _ _ hr hi1
 
-theorem decodeAllLoop_noFault (fuel : Nat) (d : Decoder) (s : Src) (room : Nat) (out : Array Nat) (f : Fault) :
-    (decodeAllLoop fuel d s room out).2 ≠ .fault f := by
+/-- `decode_all` starts every frame with `reset`: it needs well-formed dictionaries only (so it may be
+called on a decoder whose last frame failed in any way) and never faults -/
+theorem decodeAllLoop_noFault (fuel : Nat) (d : Decoder σ) (s : Src) (room : Nat) (out : Array Nat)
+    (hd : d.dictsWF) (hi : NoFaultContract.inp σ s) :
+    (decodeAllLoop fuel d s room out).1.dictsWF ∧ (∀ f, (decodeAllLoop fuel d s room out).2 ≠ .fault f) ∧
+    (d.entWF → (decodeAllLoop fuel d s room out).2.clean → (decodeAllLoop fuel d s room out).1.entWF) := by
   induction fuel generalizing d s room out with
-  | zero => simp [decodeAllLoop]
+  | zero => exact ⟨hd, fun f => by simp [decodeAllLoop], fun hw _ => hw⟩
   | succ fuel ih =>
     by_cases hne : s = []
-    · subst hne; simp [decodeAllLoop]
+    · subst hne; exact ⟨by simpa [decodeAllLoop] using hd, fun f => by simp [decodeAllLoop], fun hw _ => by simpa [decodeAllLoop] using hw⟩
     · rw [decodeAllLoop_succ _ _ _ _ _ hne]
+      have hrs := Decoder.reset_noFault d s hd
       split
-      · split
-        · simp
-        · exact ih _ _ _ _
-      · simp
-      · rename_i heq
-        have := Decoder.reset_noFault d s
-        rw [heq] at this
-        exact absurd rfl (this _)
-      · split
-        · simp
-        · rename_i heq
-          rename_i _ d1 s1 _ _ d2 f'
-          have h2 := decodeAllFrame_noFault (s1.length + 2) d1 s1 room out f'
-          rw [heq] at h2
-          exact absurd rfl h2
-        · exact ih _ _ _ _
+      · rename_i d1 mg len heq; rw [heq] at hrs
+        split
+        · exact ⟨hrs.1, fun f => by simp, fun hw _ => hrs.2.2.1 hw⟩
+        · have := ih d1 ((s.drop 8).drop len) room out hrs.1 (NoFaultContract.inp_drop _ _ (NoFaultContract.inp_drop _ _ hi))
+          exact ⟨this.1, this.2.1, fun hw hc => this.2.2 (hrs.2.2.1 hw) hc⟩
+      · rename_i heq; rw [heq] at hrs; exact ⟨hrs.1, fun f => by simp, fun hw _ => hrs.2.2.1 hw⟩
+      · rename_i heq; rw [heq] at hrs; exact absurd rfl (hrs.2.1 _)
+      · rename_i d1 s1 heq
+        rw [heq] at hrs
+        have hw1 : d1.entWF := hrs.2.2.2 s1 rfl
+        have hi1 : NoFaultContract.inp σ s1 := by
+          rcases Decoder.reset_cases d s with ⟨e, he⟩ | ⟨st, o, he, hr⟩
+          · rw [he] at heq; cases heq
+          · rw [he] at heq
+            simp only [Prod.mk.injEq] at heq
+            obtain ⟨-, rfl⟩ := heq
+            rw [(resetCore_replace _ _ _ _ _ hr).2.2.2.2.2.2.2.2.1 s1 rfl]
+            exact NoFaultContract.inp_drop _ _ hi
+        have hfr := decodeAllFrame_noFault (s1.length + 2) d1 s1 room out hw1 hi1
+        split
+        · rename_i heq2; rw [heq2] at hfr
+          exact ⟨hfr.2.1, fun f => by simp, fun _ hc => hfr.1 (Out.clean_cast hc)⟩
+        · rename_i heq2; rw [heq2] at hfr; exact absurd rfl (hfr.2.2.1 _)
+        · rename_i d2 s2 room' out' heq2
+          rw [heq2] at hfr
+          have hw2 : d2.entWF := hfr.1 (Out.clean_ok _)
+          have := ih d2 s2 room' out' hfr.2.1 (hfr.2.2.2 s2 room' out' rfl)
+          exact ⟨this.1, this.2.1, fun _ hc => this.2.2 hw2 hc⟩
 
+end generic
 
 end Zstd.Model
